@@ -49,14 +49,15 @@ MANIFEST = {
             "(every in-place write targets a buffer the routine allocated itself) => every pre-existing buffer is unchanged, for all "
             "heaps/arguments; read-only buffers are never changed by any program; instances frame_str_to_int, frame_str_to_float, "
             "frame_parse_split_fields, frame_genotype, frame_merge, frame_bincount_stream, idempotent_partial; refutations for the "
-            "variants without the upstream copy. The decision on the implementation is the snapshot registry: ~60 public "
+            "variants without the upstream copy. The decision on the implementation is the snapshot registry: 224 public "
             "functions/methods x generated special-path arguments, before/after deep byte snapshots of every argument, twin "
             "comparison of lazily read chunks, bytes written before/after field access, twice-application equality.",
     "note": "partial: the Lean theorems assume the view/copy tags of NumPy steps (assumption list in evidence); what detects a real "
             "mutation is the implementation-side snapshot check. Functions are exercised on the registry's argument generators only "
             "(221 registry entries x 4 argument variants (plain / view of a larger base / read-only / zero rows), 16 file formats incl. BAM/gz/CRLF/multi-chunk; half of the calls pass arguments as VIEWS of larger "
-            "arrays whose base is snapshotted too). Measured (16 cores, seeds 0-3): quick 10-27 s / 2.7k calls, thorough 93-147 s / 52k "
-            "calls. Defect found and fixed in /repo: 4991739 (GenotypeRowEncoding.encode rewrote newlines in the caller's array).",
+            "arrays whose base is snapshotted too). Measured (16 cores, seeds 0-3): quick 9-21 s / 5.8k calls, thorough 1-2 min / 72k "
+            "calls. Lazily read chunks are also driven through random multi-step programs (fields / slice / mask / concatenate / replace / write). "
+            "Results that alias an argument are listed in evidence (informational: the property exempts the caller's own later assignment). Defect found and fixed in /repo: 4991739 (GenotypeRowEncoding.encode rewrote newlines in the caller's array).",
     "technique": "Lean 4 heap-model frame theorem (induction over programs) + implementation-side before/after snapshot registry "
                  "with twice-application check",
     "design": "§6 C20",
